@@ -30,6 +30,12 @@ HARNESSES = {
         bound='payload metadata 0..=32'),
 }
 
+MB2 = dict(crate='multiboot2', features=None)
+for _h in ['k_tagtype_roundtrip_all_u32', 'k_tagtype_id_wrapper_commutes', 'k_tagtype_equalities_agree', 'k_tagtype_custom_noncanonical']:
+    HARNESSES[_h] = dict(MB2, file='tag_type.rs', kind='full', functions=['From<u32> for TagType', 'From<TagType> for u32', 'TagTypeId conversions', 'PartialEq impls'],
+                         bound='all u32 values (two independent symbolic u32 for the equalities); loop-free, complete')
+HARNESSES['k_mbi_magic'] = dict(MB2, file='lib.rs', kind='full', functions=['MAGIC'], bound='constant')
+
 # V obligation -> K harnesses of the same contract (run for a counterexample
 # when the V proof fails)
 PAIRS = {
@@ -40,6 +46,11 @@ PAIRS = {
 }
 
 PROPS = {
+    'C20': dict(
+        v=[],
+        k_quick=['k_tagtype_roundtrip_all_u32', 'k_tagtype_id_wrapper_commutes', 'k_tagtype_equalities_agree', 'k_tagtype_custom_noncanonical', 'k_mbi_magic'],
+        k_thorough=[],
+    ),
     'C14': dict(
         v=[('u_common', ['increase_to_alignment', 'lemma_round8_bv', 'lemma_round8_props', 'BytesRef::try_from',
                          'DynSizedStructure::ref_from_bytes', 'DynSizedStructure::ref_from_slice',
